@@ -1497,6 +1497,10 @@ def check_C13(tier, seed):
         plan.append(("%d_far" % bi_, name, "union-with-ten-ranges"))
         mods.append(c13_module("%d_low" % bi_, "$$%s # ['\\u{100}'-'\\u{10ffff}']" % name))
         plan.append(("%d_low" % bi_, name, "minus-everything-from-U+100"))
+        # a target state that is kept (it has a transition): the ranges leading to it are grouped
+        # and, when there are more than 9, compiled to a binary-search table in the main automaton
+        mods.append(c13_module("%d_tab" % bi_, "$$%s '\\u{10fffe}'?" % name))
+        plan.append(("%d_tab" % bi_, name, "kept-target-state"))
         if tier == "thorough" or bi_ % 4 == seed % 4:
             mods.append(c13_module("%d_ctx" % bi_, None, ctx="$$%s" % name))
             plan.append(("%d_ctx" % bi_, name, "right-context"))
@@ -1580,6 +1584,8 @@ def check_C13(tier, seed):
                 want = norm(base + FAR)
             elif shape == "minus-everything-from-U+100":
                 want = iv_diff(base, [(0x100, 0x10FFFF)])
+            elif shape == "kept-target-state":
+                want = base
             else:
                 want = iv_diff(base, [(97, 97)])   # 'a' itself is not swept in the context lexer
                 got = iv_diff(got, [(97, 97)])
